@@ -91,6 +91,8 @@ def run(repo, rep):
     rep.clause("C15-c", "IFM and accumulator partitions are sized per element (8-byte depth rounding), double buffered (x2) and rounded to the bank granule; LUT banks at least the reserved end banks")
     rep.clause("C15-d", "scheduler search, validator, public query and command-stream generator compute the same quantities (sibling agreement; reviewed differences frozen)")
     rep.clause("C15-e", "IFM block size arithmetic is axis-consistent")
+    rep.clause("C15-g", "the Conv1D one-row block (halved accumulator partition) is taken only for a one-row OFM under a one-row kernel")
+    rule_conv1d_halving(repo, rep)
     rep.undecided("numerical bank arithmetic for all shapes on all six accelerators")
     rep.assume("bank counts, granules, bit widths and block extents are positive")
     from .shared import mirror_families, module_axis_lint
@@ -110,7 +112,7 @@ def run(repo, rep):
     rule_hw_constants(repo, rep)
     from .shared import binding_stem_lint
 
-    if binding_stem_lint(repo, rep, "C15-d", ["register_command_stream_generator", "register_command_stream_util", "architecture_allocator", "api", "high_level_command_to_npu_op"]) < 6:
+    if binding_stem_lint(repo, rep, "C15-d", ["register_command_stream_generator", "register_command_stream_util", "architecture_allocator", "api", "high_level_command_to_npu_op", "scheduler", "cascade_builder"]) < 6:
         raise AnalysisError("binding stems: too few feature-map named locals found")
 
 
@@ -685,3 +687,20 @@ def rule_hw_constants(repo, rep):
     got = (vals.get("w"), vals.get("h"), vals.get("d"))
     rep.check(got == HW_BLOCK_MAX, "C15-c", "ethosu/vela/architecture_features.py:ArchitectureFeatures.__init__", "the maximum OFM block is 64 wide, 32 high, 128 deep (Block takes w, h, d)",
               f"ofm_block_max = (w, h, d) {got}: search, public query and validity check all read this value, so blocks beyond the hardware maximum are offered, selected and programmed")
+
+
+def rule_conv1d_halving(repo, rep):
+    """(g) fit_block_for_ofm may shrink the block to one row - which halves the accumulator partition - only for the Conv1D case of the
+    256 / 512 MAC parts: a one-row OFM *and* a one-row kernel on a 2-row micro-block. With a taller kernel the hardware still accumulates a
+    2-row block (OFM_BLK_HEIGHT stays 2) and the partition sized for one row is too small."""
+    aa = repo.mod("architecture_allocator")
+    f = aa.func("fit_block_for_ofm")
+    site = "ethosu/vela/architecture_allocator.py:fit_block_for_ofm"
+    ifs = [i for i in ast.walk(f) if isinstance(i, ast.If) and "ofm_ublock.height" in str(norm(i.test)) and any(isinstance(x, ast.Return) for x in i.body)]
+    if len(ifs) != 1:
+        raise AnalysisError(f"fit_block_for_ofm: {len(ifs)} Conv1D special cases")
+    cj = {str(comparison(c)) if comparison(c) is not None else str(norm(c)) for c in conjuncts(ifs[0].test)}
+    texts = " ; ".join(sorted(str(norm(c)) for c in conjuncts(ifs[0].test)))
+    need = ("ofm_shape.height", "kernel.height", "ofm_ublock.height")
+    rep.check(all(any(nm in str(norm(c)) for c in conjuncts(ifs[0].test)) for nm in need), "C15-g", site, "the one-row block (halved accumulators) needs OFM height 1, kernel height 1 and a 2-row micro-block",
+              f"condition: {texts}: a one-row OFM under a taller kernel (3x3 VALID on 3 rows) gets AB_START 30 where a 2-row block needs 32 banks")
